@@ -24,7 +24,7 @@ ANCHORS = ["Scenario.assign_obstacles_to_lanelets", "Scenario._add_static_obstac
            "Scenario._remove_dynamic_obstacle_from_lanelets", "Scenario.remove_obstacle",
            "Lanelet.add_dynamic_obstacle_to_lanelet", "Lanelet.add_static_obstacle_to_lanelet",
            "DynamicObstacleFactory.find_obstacle_shape_lanelets", "LaneletNetwork.find_lanelet_by_shape"]
-REQUIRED = ["op.add", "op.assign-all", "op.assign-ids", "op.assign-times", "op.assign-center-only", "op.remove",
+REQUIRED = ["scenario-without-lanelets", "file-with-separate-predicted-footprint", "prediction-records-the-initial-step", "predicted-footprint-differs-from-obstacle-shape", "op.add", "op.assign-all", "op.assign-ids", "op.assign-times", "op.assign-center-only", "op.remove",
             "op.remove-list", "op.re-add", "route.xml", "route.protobuf", "shape.Rectangle", "shape.Circle",
             "shape.Polygon", "shape.ShapeGroup", "obstacle.static", "obstacle.dynamic-trajectory", "obstacle.dynamic-none",
             "straddling(centre-lanelets<shape-lanelets)", "inv-g-checked", "inv-r-checked", "op.move",
@@ -97,7 +97,12 @@ def gen_obstacle(rng, oid, lanelets, kind=None, shape_kind=None, t0=None):
                 p, th = prev.copy(), rng.choice([math.pi / 2, rng.uniform(-3, 3), 0.0])
             prev = p
             states.append(KSState(time_step=t, position=p, orientation=th, velocity=1.0, steering_angle=0.0))
-        pred = TrajectoryPrediction(Trajectory(t0 + 1, states), shape)
+        pshape = shape
+        if sk == "Rectangle" and oid % 3 != 0:
+            # the predicted footprint is inflated (safety margin): from the first predicted step on the occupancy is THIS
+            # shape placed at the state, at the initial step it is the obstacle's own shape
+            pshape = Rectangle(shape.length + 4.0, shape.width + 3.0)
+        pred = TrajectoryPrediction(Trajectory(t0 + 1, states), pshape)
     return DynamicObstacle(oid, ObstacleType.CAR, shape, init, pred), kind, sk
 
 
@@ -165,6 +170,9 @@ def run(ctx):
             ctx.evaluation()
             ctx.feature("inv-g-checked")
             cm, cu, sm, su, half = truth(net, ob, t)
+            if t != ob.initial_state.time_step and getattr(ob, "prediction", None) is not None and \
+                    ob.prediction.shape is not ob.obstacle_shape and mode != "center":
+                ctx.feature("predicted-footprint-differs-from-obstacle-shape")
             if len(cm) < len(sm):
                 ctx.feature("straddling(centre-lanelets<shape-lanelets)")
             if cm - sm - su:
@@ -187,6 +195,16 @@ def run(ctx):
                         ctx.violation("C07/%s/recorded-shape-lanelets-wrong/%s/%s" % (opname, role, sk),
                                       "obstacle %d t=%d: recorded %s, geometry says %s (+undecided %s)" % (
                                           oid, t, None if rs is None else sorted(rs), sorted(sm), sorted(su)), wit)
+                # the prediction's own record may list the initial step as well: it speaks of the same occupancy
+                pa = getattr(getattr(ob, "prediction", None), "shape_lanelet_assignment", None)
+                if t == ob.initial_state.time_step and pa and t in pa:
+                    ctx.feature("prediction-records-the-initial-step")
+                    ps_ = set(pa[t])
+                    if not (sm <= ps_ <= sm | su) and not (
+                            half is not None and half[0] <= ps_ | su and ps_ <= half[0] | half[1] | su):
+                        ctx.violation("C07/%s/prediction-record-of-the-initial-step-wrong/%s" % (opname, sk),
+                                      "obstacle %d t=%d: prediction records %s, geometry says %s (+undecided %s)" % (
+                                          oid, t, sorted(ps_), sorted(sm), sorted(su)), wit)
         # ---- INV-R
         ctx.feature("inv-r-checked")
         exp_static = {la.lanelet_id: set() for la in net.lanelets}
@@ -500,7 +518,12 @@ def run(ctx):
         sc.add_objects([copy.deepcopy(l) for l in lanelets])
         obs = []
         for oid in range(301, 301 + rng.randint(1, 4)):
-            o, kind, sk = gen_obstacle(rng, oid, lanelets, shape_kind=rng.choice(["Rectangle", "Circle", "Polygon"]))
+            if oid == 301 and i % 2 == 1:
+                # the protobuf format stores the obstacle's shape and the predicted footprint separately
+                o, kind, sk = gen_obstacle(rng, oid, lanelets, kind="dynamic-trajectory", shape_kind="Rectangle")
+                ctx.feature("file-with-separate-predicted-footprint")
+            else:
+                o, kind, sk = gen_obstacle(rng, oid, lanelets, shape_kind=rng.choice(["Rectangle", "Circle", "Polygon"]))
             if isinstance(o, DynamicObstacle) and o.prediction is None and i % 2 == 0:
                 continue  # the XML schema requires a prediction
             obs.append(o)
@@ -534,3 +557,26 @@ def run(ctx):
                 break
         else:
             check(sc2, set(), set(), wit, "remove-after-open-%s" % fmt)
+
+    # ----------------------------------------------------------------- a scenario that has no lanelets (yet)
+    # obstacles are on no lanelet then: the assignment records empty sets, it does not fail
+    for i, rng in ctx.cases("no-lanelets", ctx.pick(6, 100)):
+        ref_lanelets, _ = lattice.gen_lanelets(rng, nmax=2)   # only used to place the obstacles somewhere
+        sc = Scenario(0.1)
+        obs = []
+        for oid in (401, 402):
+            o, kind, sk = gen_obstacle(rng, oid, ref_lanelets, kind=("static", "dynamic-trajectory")[(oid + i) % 2],
+                                       shape_kind=("Rectangle", "Polygon")[i % 2])
+            sc.add_objects(o)
+            obs.append(o)
+        ctx.feature("scenario-without-lanelets")
+        ctx.evaluation()
+        ctx.fingerprint(["no-lanelets", i])
+        wit = {"route": "scenario-without-lanelets", "obstacles": [o.obstacle_id for o in obs]}
+        try:
+            sc.assign_obstacles_to_lanelets()
+        except Exception as e:  # noqa
+            ctx.violation("C07/assign/raises-%s/scenario-without-lanelets" % type(e).__name__, repr(e)[:200], wit)
+            continue
+        assigned = {(o.obstacle_id, t, "shape") for o in obs for t in horizon(o)}
+        check(sc, assigned, set(), wit, "assign-without-lanelets")
